@@ -248,7 +248,7 @@ def gen_case(rng):
 
 def gen_bytes_cases(rng, per_len, long_n):
     cs = []
-    for n in range(0, 65):
+    for n in range(0, 97):
         for j in range(per_len):
             st = j % 4
             if st == 0: d = bytes(rng.randrange(256) for _ in range(n))
@@ -396,8 +396,11 @@ def spec_of(case):
 
 def oracle(case, impl, spec):
     if case.startswith('M '):
-        if impl != spec:
+        f = fields(impl)
+        if 'h=' + f.get('h', '?') != spec:
             return 'hash_data gives %s, MurmurHash64A (seed 0xCe110) of these %d bytes is %s' % (impl, len(case[2:]) // 2, spec)
+        if f.get('al') != 'ok':
+            return 'hash_data depends on the alignment of the bytes: %s' % impl
         return None
     if 'CRASH' in impl or 'TIMEOUT' in impl or 'EXIT(' in impl:
         return 'the library crashed or hung: %s' % impl[-60:]
@@ -429,7 +432,7 @@ def top_kinds(case):
 
 def corr(case, impl, model):
     if case.startswith('M '):
-        return None if impl == model else 'hash_data: implementation %s / model %s' % (impl, model)
+        return None if impl.split(' ')[0] == model else 'hash_data: implementation %s / model %s' % (impl, model)
     fi, fm = fields(impl), fields(model)
     if 'cmp' not in fi:
         return 'no observation from the implementation (%s), model says %s' % (impl[:60], model[:60])
@@ -487,7 +490,7 @@ CORPUS = [
 def run(ctx):
     quick = ctx.tier == 'quick'
     ctx.cov['rule'] = (
-        'hash_data: every length 0..64 x several contents (random, constant, ramp, sparse) plus long random inputs, compared '
+        'hash_data: every length 0..96 x several contents (random, constant, ramp, sparse) at all 8 alignments plus long random inputs, compared '
         'with the Gallina MurmurHash64A and an independent Python one; every such case counts as non-trivial. '
         'Value cases: a pair (a, b) of terms over Int / Float (bit patterns, no NaN) / String / Type / Ref / Box / plain structs of 18 sizes / '
         'Array / List / Tuple / Table / Tree (one level of nesting); b is with probability .55 an equal value written differently '
@@ -499,7 +502,7 @@ def run(ctx):
         'at least one direction (the hypothesis of "eq implies equal hash" is exercised); distinct = distinct implementation transcripts.')
     ctx.assumptions += [
         'C text tied by correspondence only: extracted Gallina model (HashModel.v) vs the library built from the working tree; '
-        'constants and code shapes of hash_data / Int_Hash / Float_Hash / Float_Cmp / Table_Cmp / the XOR folds re-extracted into Generated.v',
+        'constants and shapes of hash_data (tail shape), Int_Hash, Float_Hash (shape), Float_Cmp (form), memswap (loop plan), Table_Cmp, the XOR folds re-extracted into Generated.v; the theorems hold for every admissible shape',
         'NaN is excluded (Float_Cmp returns 0 whenever an operand is NaN, so eq(NaN, x) holds for every x)',
         'allocation class and address independence are carried by the correspondence (a functional model has no addresses)',
         'Tree_Cmp(tree, table) (walk of the table in slot order) is not modelled at value level; only eq(table, tree) is demanded there',
@@ -527,7 +530,7 @@ def run(ctx):
         d.report()
         return
     d.feed(CORPUS, 'corpus')
-    d.feed(gen_bytes_cases(ctx.rng, 20 if quick else 200, 60 if quick else 2000))
+    d.feed(gen_bytes_cases(ctx.rng, 16 if quick else 200, 60 if quick else 2000))
     ex = exhaustive_cases(not quick)
     d.feed(ex)
     ctx.cov['exhaustive'] = ('%d cases: all pairs of Float sequences of length <= 2 over {+0.0, -0.0, 1.0, inf}, %s; %s'
